@@ -11,6 +11,10 @@ def run(ctx: Ctx) -> None:
     ctx.floor("T11x.expflow", 12)
     ctx.floor("T11x.dtype", 8)
     t11_expv.run_svf_steps(ctx)
+    from ..tables import t6_transforms
+    with ctx.only("T6x.regrid"):  # after re-gridding, the exponential map integrates in the convention of the grid the transform holds (shared with C09)
+        t6_transforms.run_regrid(ctx, bspline=False, dense=True)
+    ctx.floor("T6x.regrid", 6)
     ctx.floor("T11x.svf-steps", 8)
     from ..tables import t67_transforms
     with ctx.only("T67.inverse-velocity"), ctx.parallel():  # the inverse clause at the SVF transforms' displacement buffers
